@@ -122,6 +122,15 @@ def body_objects(rep, case):
         obj = SwitcherSchedule(sid, False, set(), hhmm(s_), hhmm(e_))
         if obj.duration != expected(s_, e_):
             raise Violation("C14/schedule-object-duration/slot-id-seen-before", case, expected(s_, e_), obj.duration)
+        # a copy with another end time (dataclasses.replace) is a schedule of its own: its duration is that of ITS times
+        import dataclasses
+        e2 = (e_ + 61) % 1440
+        try:
+            other = dataclasses.replace(obj, end_time=hhmm(e2))
+        except Exception:
+            other = None
+        if other is not None and other.duration != expected(s_, e2):
+            raise Violation("C14/schedule-object-duration/after-dataclasses-replace", case, expected(s_, e2), other.duration)
 
 
 def strat_objects():
